@@ -975,7 +975,7 @@ func c09CoqProg(as []c09Artefact) string {
 }
 
 func TestVerif_C09(t *testing.T) {
-	res := newVerifResult("(a) injection sequences: every sequence of length <=2 over 12 injection shapes (right / wrong / empty / near-miss passphrase x with/without TLS and verified chain x field present) plus seeded random sequences of length 3..7, on 16 key-file configurations (main file good / unparsable / wrong key type x Ed25519 file absent / good / under another passphrase / unparsable / wrong key type x keymaster_public_keys_filename listing own main key / own Ed25519 key / foreign keys / duplicates), each on a fresh sealed state from loadVerifyConfigFile, the whole key state fingerprinted before and after every injection, compared step by step with Model.Seal.inject_run; (b) every route of the regenerated mux x {GET,POST} x 5 credentials plus targeted signing requests, on a sealed state, on a half-loaded state (Ed25519 signer present, main signer absent, own main key listed as trusted peer key) and on the unsealed twin: non-trivial = the twin emits a signed artefact for that request; (c) artefacts of the twin verified against /public/x509ca, /public/sshca and the JWKS; (d) the two admin handlers behind real TLS / plain HTTP listeners configured like main()'s admin server")
+	res := newVerifResult("(a) injection sequences: every sequence of length <=2 over 12 injection shapes (right / wrong / empty / near-miss passphrase x with/without TLS and verified chain x field present) plus seeded random sequences of length 3..7, on 16 key-file configurations (main file good / unparsable / wrong key type x Ed25519 file absent / good / under another passphrase / unparsable / wrong key type x keymaster_public_keys_filename listing own main key / own Ed25519 key / foreign keys / duplicates), each on a fresh sealed state from loadVerifyConfigFile, the whole key state fingerprinted before and after every injection, compared step by step with Model.Seal.inject_run; (b) every route of the regenerated mux x {GET,POST} x 5 credentials plus targeted signing requests, on a sealed state, on a half-loaded state (Ed25519 signer present, main signer absent, own main key listed as trusted peer key) and on the unsealed twin: non-trivial = the twin emits a signed artefact for that request; (c) artefacts of the twin verified against /public/x509ca, /public/sshca and the JWKS; (d) the two admin handlers behind real TLS / plain HTTP listeners configured like main()'s admin server, incl. two injections over one resumed TLS session; (a') the connection record of the injection (http.Request.TLS: nil / empty / certificates only PRESENTED: self-signed, foreign CA, the admin certificate unverified, expired / verified admin chain / verified chain of another CA / PeerCertificates and VerifiedChains of different certificates / an empty first chain) x passphrase right / wrong / empty / field absent, non-trivial = the record carries certificates; (g) the injection handler behind crypto/tls listeners of the five ClientAuth policies x certificate forced onto the wire x passphrase")
 	rng := verifRand()
 	var sb, idx strings.Builder
 	sb.WriteString(coqCaseHeader)
@@ -1108,6 +1108,10 @@ func TestVerif_C09(t *testing.T) {
 	for _, vi := range []int{1, 3} {
 		ops, obs := c09RealAdmin(t, res, c09Variants[vi])
 		seqs = append(seqs, seqCase{variant: vi, ops: ops, obs: obs})
+	}
+	// ... and the operator's requests over one resumed TLS session (c09conn.go)
+	if ops, obs := c09Resumed(t, res, c09Variants[1]); ops != nil {
+		seqs = append(seqs, seqCase{variant: 1, ops: ops, obs: obs})
 	}
 	sb.WriteString("Definition seq_cases : list (nat * list inj * list (N * N * (bool * bool * nat * nat * nat * bool))) := [\n")
 	for i, sc := range seqs {
